@@ -1,5 +1,328 @@
-(** Proofs about the XML and JSON models of TextFmt.v. *)
+(** Proofs about the XML and JSON models of TextFmt.v: generic facts about the reader cursor
+    (typed operations and the ttlv.Value decoder return; a faithful forest is read back), then
+    the two instances. *)
 From Coq Require Import String Ascii ZArith List Bool Lia.
 From KV Require Import Base BaseProofs Wire Cursor TextLex TextLexProofs TextFmt.
 Import ListNotations.
 Open Scope Z_scope.
+
+(** induction over items with the hypothesis available for all children *)
+Lemma item_ind' (P : item -> Prop) :
+  (forall tag kids, Forall P kids -> P (IStruct tag kids)) ->
+  (forall tag v, P (IInt tag v)) -> (forall tag v, P (ILong tag v)) -> (forall tag v, P (IBig tag v)) ->
+  (forall tag rtag v, P (IEnum tag rtag v)) -> (forall tag b, P (IBool tag b)) ->
+  (forall tag s, P (IText tag s)) -> (forall tag s, P (IBytes tag s)) ->
+  (forall tag v, P (IDate tag v)) -> (forall tag v, P (IIntv tag v)) ->
+  (forall tag rtag v, P (IMask tag rtag v)) ->
+  forall i, P i.
+Proof.
+  intros Hs Hi Hl Hb He Hbo Ht Hby Hd Hiv Hm.
+  fix IH 1. intros [tag kids|tag v|tag v|tag v|tag rtag v|tag b|tag s|tag s|tag v|tag v|tag rtag v];
+    [|apply Hi|apply Hl|apply Hb|apply He|apply Hbo|apply Ht|apply Hby|apply Hd|apply Hiv|apply Hm].
+  apply Hs. induction kids as [|k ks IHk]; constructor; [apply IH|exact IHk].
+Qed.
+
+Section GenericCursor.
+  Context {R : Type}.
+  Variable F : rawfmt R.
+
+  (** every scalar parser of the format returns (a value or an error) *)
+  Record fmt_total : Prop := {
+    ft_int : forall raw, returns (p_int F raw);
+    ft_long : forall raw, returns (p_long F raw);
+    ft_big : forall raw, returns (p_big F raw);
+    ft_enum : forall rtag tag raw, returns (p_enum F rtag tag raw);
+    ft_bool : forall raw, returns (p_bool F raw);
+    ft_text : forall raw, returns (p_text F raw);
+    ft_bytes : forall raw, returns (p_bytes F raw);
+    ft_date : forall raw, returns (p_date F raw);
+    ft_intv : forall raw, returns (p_intv F raw);
+    ft_mask : forall rtag tag raw, returns (p_mask F rtag tag raw);
+  }.
+
+  Lemma c_open_returns (l : list (relem R)) b : returns (c_open l b).
+  Proof. unfold c_open. destruct l; [destruct b|]; exact I. Qed.
+
+  Lemma c_open_fst (l : list (relem R)) b c : c_open l b = Ok c -> fst c = l.
+  Proof. unfold c_open. destruct l; [destruct b|]; intros H; inversion H; reflexivity. Qed.
+
+  Lemma c_next_returns (c : cur R) : returns (c_next c).
+  Proof. unfold c_next. destruct (fst c); [exact I|apply c_open_returns]. Qed.
+
+  Lemma c_next_fst (c c' : cur R) : c_next c = Ok c' -> fst c' = tl (fst c).
+  Proof. unfold c_next. destruct (fst c) as [|e r]; [discriminate|]. apply c_open_fst. Qed.
+
+  Lemma c_expect_returns ty tag (c : cur R) : returns (c_expect ty tag c).
+  Proof.
+    unfold c_expect. destruct (fst c) as [|[t y raw kids kb] r]; [exact I|].
+    destruct (negb (t =? tag)); [exact I|]. destruct (negb (y =? ty)); exact I.
+  Qed.
+
+  Lemma c_scalar_returns {A} ty (parse : R -> res A) tag (c : cur R) :
+    (forall raw, returns (parse raw)) -> returns (c_scalar ty parse tag c).
+  Proof.
+    intros Hp. unfold c_scalar. apply returns_bind; [apply c_expect_returns|].
+    intros [t y raw kids kb] _. apply returns_bind; [apply Hp|]. intros v _.
+    apply returns_bind; [apply c_next_returns|]. intros; exact I.
+  Qed.
+
+  Lemma c_scalar_fst {A} ty (parse : R -> res A) tag (c : cur R) v c' :
+    c_scalar ty parse tag c = Ok (v, c') -> fst c' = tl (fst c).
+  Proof.
+    unfold c_scalar. destruct (c_expect ty tag c) as [[t y raw kids kb]| | |]; cbn [bind]; try discriminate.
+    destruct (parse raw); cbn [bind]; try discriminate.
+    destruct (c_next c) eqn:E; cbn [bind]; try discriminate.
+    intros H; inversion H; subst. eapply c_next_fst; eassumption.
+  Qed.
+
+  Lemma c_struct_returns {A} tag (f : cur R -> res (A * cur R)) (c : cur R) :
+    (forall t y raw kids kb r sub, fst c = RE t y raw kids kb :: r -> fst sub = kids -> returns (f sub)) ->
+    returns (c_struct F tag f c).
+  Proof.
+    intros Hf. unfold c_struct. unfold c_expect.
+    destruct (fst c) as [|[t y raw kids kb] r] eqn:Ec; [exact I|].
+    destruct (negb (t =? tag)); [exact I|]. destruct (negb (y =? T_STRUCT)); [exact I|]. cbn [bind].
+    apply returns_bind; [apply c_open_returns|]. intros sub Hsub.
+    apply returns_bind; [eapply Hf; [reflexivity|eapply c_open_fst; eassumption]|]. intros r0 _.
+    destruct (strict_close F && snd (snd r0)); [exact I|].
+    apply returns_bind; [|intros; exact I].
+    unfold c_next. rewrite Ec. apply c_open_returns.
+  Qed.
+
+  Lemma c_struct_fst {A} tag (f : cur R -> res (A * cur R)) (c : cur R) v c' :
+    c_struct F tag f c = Ok (v, c') -> fst c' = tl (fst c).
+  Proof.
+    unfold c_struct. destruct (c_expect T_STRUCT tag c) as [[t y raw kids kb]| | |]; cbn [bind]; try discriminate.
+    destruct (c_open kids kb); cbn [bind]; try discriminate.
+    destruct (f a); cbn [bind]; try discriminate.
+    destruct (strict_close F && snd (snd a0)); try discriminate.
+    destruct (c_next c) eqn:E; cbn [bind]; try discriminate.
+    intros H; inversion H; subst. eapply c_next_fst; eassumption.
+  Qed.
+
+  Lemma forest_size_cons (e : relem R) l : forest_size (e :: l) = (relem_size e + forest_size l)%nat.
+  Proof. reflexivity. Qed.
+  Lemma relem_size_RE t y (raw : R) kids kb : relem_size (RE t y raw kids kb) = S (forest_size kids).
+  Proof. reflexivity. Qed.
+  Lemma forest_size_tl (l : list (relem R)) : (forest_size (tl l) <= forest_size l)%nat.
+  Proof. destruct l; [cbn; lia|]. rewrite forest_size_cons. cbn [tl]. lia. Qed.
+
+  Lemma dec_value_S f tag (c : cur R) :
+    dec_value F (S f) tag c =
+      let ty := c_type c in
+      if ty =? T_INT then do r <- c_integer F tag c ;; Ok (IInt tag (fst r), snd r)
+      else if ty =? T_LONG then do r <- c_long F tag c ;; Ok (ILong tag (fst r), snd r)
+      else if ty =? T_BIG then do r <- c_big F tag c ;; Ok (IBig tag (fst r), snd r)
+      else if ty =? T_BOOL then do r <- c_bool F tag c ;; Ok (IBool tag (fst r), snd r)
+      else if ty =? T_BYTES then do r <- c_bytes F tag c ;; Ok (IBytes tag (fst r), snd r)
+      else if ty =? T_DATE then do r <- c_date F tag c ;; Ok (IDate tag (fst r), snd r)
+      else if ty =? T_ENUM then do r <- c_enum F 0 tag c ;; Ok (IEnum tag 0 (fst r), snd r)
+      else if ty =? T_INTV then do r <- c_intv F tag c ;; Ok (IIntv tag (fst r), snd r)
+      else if ty =? T_TEXT then do r <- c_text F tag c ;; Ok (IText tag (fst r), snd r)
+      else if ty =? T_STRUCT then
+        do r <- c_struct F tag (dec_fields F f) c ;; Ok (IStruct tag (fst r), snd r)
+      else Err.
+  Proof. reflexivity. Qed.
+
+  Lemma dec_fields_S f (c : cur R) :
+    dec_fields F (S f) c =
+      if c_tag c =? 0 then Ok ([], c) else
+      do r <- dec_value F f (c_tag c) c ;;
+      do rs <- dec_fields F f (snd r) ;;
+      Ok (fst r :: fst rs, snd rs).
+  Proof. reflexivity. Qed.
+
+  Lemma dec_value_int f tag (c : cur R) : c_type c = T_INT ->
+    dec_value F (S f) tag c = do r <- c_integer F tag c ;; Ok (IInt tag (fst r), snd r).
+  Proof. intros H. rewrite dec_value_S. cbv zeta. rewrite H. reflexivity. Qed.
+  Lemma dec_value_long f tag (c : cur R) : c_type c = T_LONG ->
+    dec_value F (S f) tag c = do r <- c_long F tag c ;; Ok (ILong tag (fst r), snd r).
+  Proof. intros H. rewrite dec_value_S. cbv zeta. rewrite H. reflexivity. Qed.
+  Lemma dec_value_big f tag (c : cur R) : c_type c = T_BIG ->
+    dec_value F (S f) tag c = do r <- c_big F tag c ;; Ok (IBig tag (fst r), snd r).
+  Proof. intros H. rewrite dec_value_S. cbv zeta. rewrite H. reflexivity. Qed.
+  Lemma dec_value_bool f tag (c : cur R) : c_type c = T_BOOL ->
+    dec_value F (S f) tag c = do r <- c_bool F tag c ;; Ok (IBool tag (fst r), snd r).
+  Proof. intros H. rewrite dec_value_S. cbv zeta. rewrite H. reflexivity. Qed.
+  Lemma dec_value_bytes f tag (c : cur R) : c_type c = T_BYTES ->
+    dec_value F (S f) tag c = do r <- c_bytes F tag c ;; Ok (IBytes tag (fst r), snd r).
+  Proof. intros H. rewrite dec_value_S. cbv zeta. rewrite H. reflexivity. Qed.
+  Lemma dec_value_date f tag (c : cur R) : c_type c = T_DATE ->
+    dec_value F (S f) tag c = do r <- c_date F tag c ;; Ok (IDate tag (fst r), snd r).
+  Proof. intros H. rewrite dec_value_S. cbv zeta. rewrite H. reflexivity. Qed.
+  Lemma dec_value_enum f tag (c : cur R) : c_type c = T_ENUM ->
+    dec_value F (S f) tag c = do r <- c_enum F 0 tag c ;; Ok (IEnum tag 0 (fst r), snd r).
+  Proof. intros H. rewrite dec_value_S. cbv zeta. rewrite H. reflexivity. Qed.
+  Lemma dec_value_intv f tag (c : cur R) : c_type c = T_INTV ->
+    dec_value F (S f) tag c = do r <- c_intv F tag c ;; Ok (IIntv tag (fst r), snd r).
+  Proof. intros H. rewrite dec_value_S. cbv zeta. rewrite H. reflexivity. Qed.
+  Lemma dec_value_text f tag (c : cur R) : c_type c = T_TEXT ->
+    dec_value F (S f) tag c = do r <- c_text F tag c ;; Ok (IText tag (fst r), snd r).
+  Proof. intros H. rewrite dec_value_S. cbv zeta. rewrite H. reflexivity. Qed.
+  Lemma dec_value_struct f tag (c : cur R) : c_type c = T_STRUCT ->
+    dec_value F (S f) tag c = do r <- c_struct F tag (dec_fields F f) c ;; Ok (IStruct tag (fst r), snd r).
+  Proof. intros H. rewrite dec_value_S. cbv zeta. rewrite H. reflexivity. Qed.
+
+  Ltac scalar_branch H :=
+    match type of H with
+    | bind ?x _ = Ok _ => destruct x as [[? ?]| | |] eqn:?; cbn [bind] in H; try discriminate;
+                          inversion H; subst; cbn [snd]; eapply c_scalar_fst; eassumption
+    end.
+
+  Lemma dec_value_fst fuel tag (c : cur R) i c' :
+    dec_value F fuel tag c = Ok (i, c') -> fst c' = tl (fst c).
+  Proof.
+    destruct fuel as [|f]; [discriminate|]. rewrite dec_value_S. cbv zeta.
+    repeat match goal with |- (if ?b then _ else _) = _ -> _ => destruct b end; intros H;
+      try (unfold c_integer, c_long, c_big, c_bool, c_bytes, c_date, c_enum, c_intv, c_text in H; scalar_branch H); try discriminate.
+    destruct (c_struct F tag (dec_fields F f) c) as [[? ?]| | |] eqn:E; cbn [bind] in H; try discriminate.
+    inversion H; subst; cbn [snd]. eapply c_struct_fst; eassumption.
+  Qed.
+
+  Hypothesis Htot : fmt_total.
+
+  (** the generic ttlv.Value decoder returns on every raw forest, with fuel linear in its size *)
+  Lemma dec_returns fuel :
+    (forall tag (c : cur R), (2 * forest_size (fst c) < fuel)%nat -> returns (dec_value F fuel tag c)) /\
+    (forall (c : cur R), (2 * forest_size (fst c) + 1 < fuel)%nat -> returns (dec_fields F fuel c)).
+  Proof.
+    induction fuel as [|f [IHv IHf]]; [split; intros; lia|]. split.
+    - intros tag c Hc. rewrite dec_value_S. cbv zeta.
+      repeat match goal with |- returns (if ?b then _ else _) => destruct b end;
+        try (apply returns_bind; [|intros; exact I]);
+        try (unfold c_integer, c_long, c_big, c_bool, c_bytes, c_date, c_enum, c_intv, c_text; apply c_scalar_returns; intros; apply Htot);
+        try exact I.
+      apply c_struct_returns. intros t y raw kids kb r sub Ec Hsub. apply IHf. rewrite Hsub.
+      rewrite Ec, forest_size_cons, relem_size_RE in Hc. lia.
+    - intros c Hc. rewrite dec_fields_S. destruct (c_tag c =? 0) eqn:Etag; [exact I|].
+      apply returns_bind; [apply IHv; lia|]. intros [i c'] Hi.
+      apply returns_bind; [|intros; exact I]. cbn [snd]. apply IHf.
+      rewrite (dec_value_fst _ _ _ _ _ Hi).
+      unfold c_tag in Etag.
+      destruct (fst c) as [|e r]; [discriminate|]. cbn [tl]. rewrite forest_size_cons in Hc.
+      destruct e as [t y raw kids kb]. rewrite relem_size_RE in Hc. lia.
+  Qed.
+
+  Lemma dec_value_returns fuel tag (c : cur R) :
+    (2 * forest_size (fst c) < fuel)%nat -> returns (dec_value F fuel tag c).
+  Proof. apply dec_returns. Qed.
+
+  (** typed re-reading along any script returns on every raw forest *)
+  Lemma read_as_returns : forall script (c : cur R), returns (read_as F script c).
+  Proof.
+    induction script as [tag kids IH| | | | | | | | | |] using item_ind'; intros c; cbn [read_as];
+      try (apply returns_bind; [|intros; exact I];
+           unfold c_integer, c_long, c_big, c_bool, c_bytes, c_date, c_enum, c_intv, c_text, c_mask; apply c_scalar_returns; intros; apply Htot).
+    apply returns_bind; [|intros; exact I]. apply c_struct_returns. intros t y raw kids' kb rr sub _ _. clear c.
+    revert sub. induction IH as [|k ks Hk _ IHks]; intros sub; [exact I|].
+    apply returns_bind; [apply Hk|]. intros r _. apply returns_bind; [apply IHks|]. intros; exact I.
+  Qed.
+End GenericCursor.
+
+(** ------------------------------------------------------------ a faithful forest is read back *)
+
+Scheme faithful1_mind := Minimality for faithful1 Sort Prop
+  with faithful_mind := Minimality for faithful Sort Prop.
+Combined Scheme faithful_mutind from faithful1_mind, faithful_mind.
+
+Section Faithful.
+  Context {R : Type}.
+  Variable F : rawfmt R.
+
+  Lemma c_next_cons (e : relem R) rest : c_next (e :: rest, false) = Ok (rest, false).
+  Proof. unfold c_next, c_open. cbn [fst snd]. destruct rest; reflexivity. Qed.
+
+  Lemma c_scalar_hit {A} ty (parse : R -> res A) tag raw kids kb rest v :
+    parse raw = Ok v ->
+    c_scalar ty parse tag (RE tag ty raw kids kb :: rest, false) = Ok (v, (rest, false)).
+  Proof.
+    intros Hp. unfold c_scalar, c_expect. cbn [fst]. rewrite !Z.eqb_refl. cbn [negb bind].
+    rewrite Hp. cbn [bind]. rewrite c_next_cons. reflexivity.
+  Qed.
+
+  Lemma c_struct_hit {A} tag raw kids rest (f : cur R -> res (A * cur R)) v :
+    f (kids, false) = Ok (v, ([], false)) ->
+    c_struct F tag f (RE tag T_STRUCT raw kids false :: rest, false) = Ok (v, (rest, false)).
+  Proof.
+    intros Hf. unfold c_struct, c_expect. cbn [fst]. rewrite !Z.eqb_refl. cbn [negb bind].
+    assert (Ho : c_open kids false = Ok (kids, false)) by (destruct kids; reflexivity).
+    rewrite Ho. cbn [bind]. rewrite Hf. cbn [bind fst snd]. rewrite andb_false_r, c_next_cons. reflexivity.
+  Qed.
+
+  (** typed reading of what was written returns exactly the items written *)
+  Lemma read_faithful :
+    (forall i e, faithful1 F i e -> forall rest, read_as F i (e :: rest, false) = Ok (i, (rest, false))) /\
+    (forall il el, faithful F il el -> read_list F il (el, false) = Ok (il, ([], false))).
+  Proof.
+    apply faithful_mutind.
+    - intros tag kids raw es _ IH rest. cbn [read_as].
+      rewrite (c_struct_hit tag raw es rest _ kids); [reflexivity|]. exact IH.
+    - intros; cbn [read_as]; unfold c_integer; erewrite c_scalar_hit by eassumption; reflexivity.
+    - intros; cbn [read_as]; unfold c_long; erewrite c_scalar_hit by eassumption; reflexivity.
+    - intros; cbn [read_as]; unfold c_big; erewrite c_scalar_hit by eassumption; reflexivity.
+    - intros; cbn [read_as]; unfold c_enum; erewrite c_scalar_hit by eassumption; reflexivity.
+    - intros; cbn [read_as]; unfold c_bool; erewrite c_scalar_hit by eassumption; reflexivity.
+    - intros; cbn [read_as]; unfold c_text; erewrite c_scalar_hit by eassumption; reflexivity.
+    - intros; cbn [read_as]; unfold c_bytes; erewrite c_scalar_hit by eassumption; reflexivity.
+    - intros; cbn [read_as]; unfold c_date; erewrite c_scalar_hit by eassumption; reflexivity.
+    - intros; cbn [read_as]; unfold c_intv; erewrite c_scalar_hit by eassumption; reflexivity.
+    - intros; cbn [read_as]; unfold c_mask; erewrite c_scalar_hit by eassumption; reflexivity.
+    - reflexivity.
+    - intros i e il el _ IH1 _ IH2. cbn [read_list]. rewrite IH1. cbn [bind snd]. rewrite IH2. reflexivity.
+  Qed.
+
+  Lemma faithful_sizes :
+    (forall i e, faithful1 F i e -> relem_size e = item_size i) /\
+    (forall il el, faithful F il el -> forest_size el = fold_right (fun k n => item_size k + n)%nat O il).
+  Proof.
+    apply faithful_mutind; intros; try reflexivity.
+    - cbn [relem_size item_size]. f_equal. assumption.
+    - cbn [fold_right]. rewrite forest_size_cons. congruence.
+  Qed.
+
+  Lemma faithful1_tag i e : faithful1 F i e -> match e with RE t _ _ _ _ => t = itag i end.
+  Proof. destruct 1; reflexivity. Qed.
+
+  (** the generic ttlv.Value decoder returns exactly the value tree that was written *)
+  Lemma dec_faithful :
+    (forall i e, faithful1 F i e -> value_item i = true ->
+       forall fuel rest, (2 * relem_size e < fuel)%nat ->
+       dec_value F fuel (itag i) (e :: rest, false) = Ok (i, (rest, false))) /\
+    (forall il el, faithful F il el -> forallb (fun k => negb (itag k =? 0) && value_item k) il = true ->
+       forall fuel, (2 * forest_size el + 1 < fuel)%nat ->
+       dec_fields F fuel (el, false) = Ok (il, ([], false))).
+  Proof.
+    apply faithful_mutind.
+    - intros tag kids raw es _ IH Hv fuel rest Hf. cbn [value_item] in Hv. rewrite relem_size_RE in Hf.
+      destruct fuel as [|f]; [lia|]. cbn [itag]. rewrite dec_value_struct by reflexivity.
+      rewrite (c_struct_hit tag raw es rest _ kids); [reflexivity|]. apply IH; [exact Hv|lia].
+    - intros tag v raw kb Hp _ fuel rest Hf. destruct fuel as [|f]; [lia|]. cbn [itag]. rewrite dec_value_int by reflexivity.
+      unfold c_integer. erewrite c_scalar_hit by eassumption. reflexivity.
+    - intros tag v raw kb Hp _ fuel rest Hf. destruct fuel as [|f]; [lia|]. cbn [itag]. rewrite dec_value_long by reflexivity.
+      unfold c_long. erewrite c_scalar_hit by eassumption. reflexivity.
+    - intros tag v raw kb Hp _ fuel rest Hf. destruct fuel as [|f]; [lia|]. cbn [itag]. rewrite dec_value_big by reflexivity.
+      unfold c_big. erewrite c_scalar_hit by eassumption. reflexivity.
+    - intros tag rtag v raw kb Hp Hv fuel rest Hf. cbn [value_item] in Hv. apply Z.eqb_eq in Hv. subst rtag.
+      destruct fuel as [|f]; [lia|]. cbn [itag]. rewrite dec_value_enum by reflexivity.
+      unfold c_enum. erewrite c_scalar_hit by eassumption. reflexivity.
+    - intros tag v raw kb Hp _ fuel rest Hf. destruct fuel as [|f]; [lia|]. cbn [itag]. rewrite dec_value_bool by reflexivity.
+      unfold c_bool. erewrite c_scalar_hit by eassumption. reflexivity.
+    - intros tag v raw kb Hp _ fuel rest Hf. destruct fuel as [|f]; [lia|]. cbn [itag]. rewrite dec_value_text by reflexivity.
+      unfold c_text. erewrite c_scalar_hit by eassumption. reflexivity.
+    - intros tag v raw kb Hp _ fuel rest Hf. destruct fuel as [|f]; [lia|]. cbn [itag]. rewrite dec_value_bytes by reflexivity.
+      unfold c_bytes. erewrite c_scalar_hit by eassumption. reflexivity.
+    - intros tag v raw kb Hp _ fuel rest Hf. destruct fuel as [|f]; [lia|]. cbn [itag]. rewrite dec_value_date by reflexivity.
+      unfold c_date. erewrite c_scalar_hit by eassumption. reflexivity.
+    - intros tag v raw kb Hp _ fuel rest Hf. destruct fuel as [|f]; [lia|]. cbn [itag]. rewrite dec_value_intv by reflexivity.
+      unfold c_intv. erewrite c_scalar_hit by eassumption. reflexivity.
+    - intros tag rtag v raw kb Hp Hv. discriminate.
+    - intros _ fuel Hf. destruct fuel as [|f]; [lia|]. reflexivity.
+    - intros i e il el Hfa IH1 _ IH2 Hv fuel Hf. cbn [forallb] in Hv.
+      apply andb_true_iff in Hv as [Hv1 Hv2]. apply andb_true_iff in Hv1 as [Ht Hv1].
+      rewrite forest_size_cons in Hf. destruct fuel as [|f]; [lia|].
+      pose proof (faithful1_tag i e Hfa) as Htag. destruct e as [t y raw kids kb]. subst t.
+      rewrite dec_fields_S. unfold c_tag. cbn [fst]. rewrite (negb_true_iff _) in Ht. rewrite Ht.
+      rewrite IH1 by (auto; lia). cbn [bind snd fst]. rewrite relem_size_RE in Hf.
+      rewrite IH2 by (auto; lia). reflexivity.
+  Qed.
+End Faithful.
